@@ -29,7 +29,7 @@ def _items(b):
 
 
 @unit("C06", covers=[(DEX, "read_null_terminated_string")], params=[{"n": n, "p0": 0} for n in (0, 1, 2, 127, 128, 129, 256, 257)] + [{"n": n, "p0": 5} for n in (5, 130, 134, 200)],
-      samples=60, max_paths=4000, timeout_ms=60000)
+      samples=60, max_paths=4000, timeout_ms=60000, terminates=True)
 def null_terminated(U, n, p0):
     m = U.mod(DEX)
     b = U.bytes("data", n)
